@@ -199,7 +199,7 @@ def _gen_ari(tag):
         for _ in range(n):
             c = lrc.AssignedFeatureCounter.__new__(lrc.AssignedFeatureCounter)
             c.assignment_extractor = lrc.GeneAssignmentExtractor if tag == "gene" else lrc.TranscriptAssignmentExtractor
-            groups = rng.choice([[], ["a", "b"], ["NA", "g1", "g2"]])
+            groups = rng.choice([[], ["a", "b"], ["NA", "g1", "g2"], ["HEK", "NA", "b"], ["0", "B", "NA"]])
             c.ignore_read_groups = not groups
             c.group_numeric_ids = {g: i for i, g in enumerate(sorted(groups))} if groups else {"NA": 0}
             c.read_counter = lrc.ReadWeightCounter(rng.choice(lrc.COUNTING_STRATEGIES))
@@ -310,15 +310,17 @@ def _run_counters(seed):
     d = tempfile.mkdtemp(prefix="cnt", dir=base)
     problems = []
     try:
-        groups = set(rng.sample(["b", "a", "NA", "g10", "g2", "zeta", "cell_1"], rng.randint(2, 5)))
+        groups = set(rng.sample(["b", "a", "NA", "g10", "g2", "zeta", "cell_1", "HEK", "0", "B_cell"], rng.randint(2, 5)))
+        if rng.random() < .5:
+            groups.add("NA")
         strategy = rng.choice(lrc.COUNTING_STRATEGIES)
         feats = ["t%d" % i for i in range(5)]
         grouped = lrc.create_transcript_counter(os.path.join(d, "grp"), strategy, feats, groups, True, lrc.GroupedOutputFormat.both)
         plain = lrc.create_transcript_counter(os.path.join(d, "all"), strategy, feats, None, True)
         gi = type("GI", (), {})()
         gi.all_isoforms_introns = {f: ([(6, 8)] if i % 2 else []) for i, f in enumerate(feats)}
-        expected = {}
-        n_amb = n_unassigned = 0
+        expected = {}  # (feature, group) -> number of uniquely assigned reads of that group (each weighs exactly 1 under every strategy)
+        named = set()  # (feature, group) pairs some read of the group names at all
         for _ in range(rng.randint(5, 40)):
             t = rng.choice([ia.ReadAssignmentType.unique, ia.ReadAssignmentType.unique_minor_difference, ia.ReadAssignmentType.ambiguous,
                             ia.ReadAssignmentType.inconsistent, ia.ReadAssignmentType.inconsistent_non_intronic,
@@ -333,6 +335,10 @@ def _run_counters(seed):
             ra.gene_info = gi
             grouped.add_read_info(ra)
             plain.add_read_info(ra)
+            for m in ms:
+                named.add((m.assigned_transcript, ra.read_group))
+            if t.is_unique():
+                expected[(ms[0].assigned_transcript, ra.read_group)] = expected.get((ms[0].assigned_transcript, ra.read_group), 0) + 1
         grouped.dump()
         plain.dump()
         def table(path):
@@ -363,6 +369,13 @@ def _run_counters(seed):
                     problems.append("matrix cell (%s,%s)=%s but linear says %s" % (f, g, v, lin[(f, g)]))
                 if (f, g) not in lin and float(v) != 0:
                     problems.append("matrix cell (%s,%s)=%s missing from the linear table" % (f, g, v))
+            # every read is counted under its own group: a cell holds at least the group's uniquely assigned reads of the feature, and
+            # nothing at all when no read of the group names the feature
+            for g, v in zip(hdr, vals):
+                if float(v) + 1e-9 < expected.get((f, g), 0):
+                    problems.append("cell (%s,%s)=%s but %d uniquely assigned reads of group %s name %s" % (f, g, v, expected[(f, g)], g, f))
+                if float(v) != 0 and (f, g) not in named:
+                    problems.append("cell (%s,%s)=%s but no read of group %s names %s" % (f, g, v, g, f))
             tot = sum(grouped.feature_counter[f].get(grouped.group_numeric_ids[g]) for g in groups)
             if abs(tot - plain.feature_counter[f].get(0)) > 1e-9:
                 problems.append("groups of %s sum to %r, ungrouped is %r" % (f, tot, plain.feature_counter[f].get(0)))
@@ -392,7 +405,7 @@ def replay_counters(d):
 
 @bounded("C09.tables_native", ["C09", "C02"], note="real grouped and ungrouped transcript counters fed the same random records, "
          "dumped to real files: matrix header = sorted groups, matrix and linear tables carry identical (feature, group, value) "
-         "triples, per-group counts sum to the ungrouped count, simple TPM sums to 1e6 with ratios preserved; bound: N random runs "
+         "triples, every cell holds at least the uniquely assigned reads of its own group and nothing from other groups, per-group counts sum to the ungrouped count, simple TPM sums to 1e6 with ratios preserved; bound: N random runs "
          "of 5..40 records over 5 features and 2..5 groups")
 def c09_tables(tier, rng):
     n = 60 if tier == "quick" else 3000
